@@ -27,6 +27,15 @@ def check(ctx, cfg):
     r3(ctx, cfg)
     r4(ctx, cfg)
     r5(ctx, cfg)
+    r6(ctx, cfg)
+
+
+def r6(ctx, cfg):
+    """"it is invoked on the dispatching contract": the contract whose response is being processed is the one handed to
+    process_response at all five dispatch sites (execute, instantiate, migrate, sudo, reply) - C05.R4's dispatch obligations
+    under C03's id (R3 covers the way from process_response down to the reply call)"""
+    from rules import C05
+    C05.r4_dispatch(ctx, cfg, "C03.R6")
 
 
 def r5(ctx, cfg):
